@@ -219,6 +219,20 @@ def native_laws(rng, ncases):
         val_cols = [k for k in df.columns if k.endswith("_val")]
         if not np.allclose(df[val_cols].to_numpy(float) * c, df2[val_cols].to_numpy(float), rtol=1e-9, equal_nan=True):
             bad.append(("scale does not scale values", T, C))
+        # ... at any amplitude unit (Volts instead of microvolts and smaller): scaling by a power of two is exact in binary floating point, so
+        # indices, signs, ratios and durations must be identical and values / slopes exactly scaled
+        c2 = 2.0 ** float(rng.choice([-int(rng.integers(10, 45)), int(rng.integers(5, 20))]))
+        try:
+            df5 = W.compute_spike_features(a0.copy() * c2)
+            inv_cols = [k for k in df.columns if k in ("invert_sign_peak", "peak_to_trough_ratio", "peak_to_trough_ratio_log", "peak_to_trough_duration", "half_peak_duration")]
+            slope_cols = [k for k in df.columns if k.endswith("_slope")]
+            if not df[idx_cols].equals(df5[idx_cols]):
+                bad.append(("scale by a power of two changes indices", T, C, c2))
+            elif not (np.array_equal(df[val_cols + slope_cols].to_numpy(float) * c2, df5[val_cols + slope_cols].to_numpy(float), equal_nan=True)
+                      and np.array_equal(df[inv_cols].to_numpy(float), df5[inv_cols].to_numpy(float), equal_nan=True)):
+                bad.append(("scale by a power of two: values / slopes not scaled or ratios / durations changed", T, C, c2))
+        except Exception as e:
+            bad.append(("scaled copy raised", T, C, c2, repr(e)[:80]))
         # channel permutation
         perm = rng.permutation(C)
         df3 = W.compute_spike_features(a0[:, :, perm].copy())
